@@ -374,6 +374,63 @@ func extractC09(c *Ctx) error {
 				return true
 			})
 		}
+		// round 6: (a) field read / non-getter method call on a pointer obtained as `x, _ := f(...)` (the second
+		// result ignored: x may be nil — deployment.Status.String() after getSmartContractDeploymentByContractID);
+		// (b) an index computed by a subtraction (w[rank-1], x[len(y)-1]) — negative on an empty slice
+		{
+			maybeNil := map[string]bool{}
+			ast.Inspect(fn.decl.Body, func(x ast.Node) bool {
+				as, ok := x.(*ast.AssignStmt)
+				if !ok || len(as.Lhs) != 2 || len(as.Rhs) != 1 {
+					return true
+				}
+				if _, isCall := as.Rhs[0].(*ast.CallExpr); !isCall {
+					return true
+				}
+				a, ok1 := as.Lhs[0].(*ast.Ident)
+				b, ok2 := as.Lhs[1].(*ast.Ident)
+				if ok1 && ok2 && b.Name == "_" && a.Name != "_" {
+					maybeNil[a.Name] = true
+				}
+				return true
+			})
+			if len(maybeNil) > 0 {
+				callee := map[*ast.SelectorExpr]bool{}
+				ast.Inspect(fn.decl.Body, func(x ast.Node) bool {
+					if ce, ok := x.(*ast.CallExpr); ok {
+						if se, ok := ce.Fun.(*ast.SelectorExpr); ok {
+							callee[se] = true
+						}
+					}
+					return true
+				})
+				ast.Inspect(fn.decl.Body, func(x ast.Node) bool {
+					se, ok := x.(*ast.SelectorExpr)
+					if !ok {
+						return true
+					}
+					id, ok := se.X.(*ast.Ident)
+					if !ok || !maybeNil[id.Name] {
+						return true
+					}
+					if callee[se] && (strings.HasPrefix(se.Sel.Name, "Get") || se.Sel.Name == "String") {
+						return true // generated getters are nil-safe
+					}
+					add("nilret", se)
+					return true
+				})
+			}
+			ast.Inspect(fn.decl.Body, func(x ast.Node) bool {
+				ie, ok := x.(*ast.IndexExpr)
+				if !ok {
+					return true
+				}
+				if be, ok := ie.Index.(*ast.BinaryExpr); ok && be.Op == token.SUB {
+					add("subindex", ie)
+				}
+				return true
+			})
+		}
 		ast.Inspect(fn.decl.Body, func(n ast.Node) bool {
 			switch v := n.(type) {
 			case *ast.CallExpr:
